@@ -127,6 +127,8 @@ def grid_case(ctx, idx, rng):
     start = STARTS[(idx // 3 + rep) % len(STARTS)]
     A, v = kr.make_case(rng, n, cplx, spectrum, start)
     A = A / max(1.0, np.linalg.norm(A, 2) / 3)
+    if idx % 7 == 3:
+        A = A * (float(rng.choice([1e-3, 30.0])) if idx % 3 == 0 else 1e-3)          # small operator norms; large ones (|dt| ||A|| up to ~1000) for imaginary dt only (idx % 3 == 0)
     res = kr.krylov_residuals(A, v, m + 1)
     kd = kr.krylov_dim(res)
     # ambiguous exhaustion (residual between the thresholds) cannot decide exactness: classify conservatively
